@@ -402,6 +402,8 @@ func execProxyRaw(e *Env, pp any) {
 			}
 		}
 	}
+	reattachDoneEv := 0
+	sendStart := map[string]int{} // payload -> event number at which its sender began to write it
 	reattach := func() {
 		rp := peers["bad"]
 		if rp == nil || rp.spec.Dial {
@@ -413,6 +415,10 @@ func execProxyRaw(e *Env, pp any) {
 		t.l.OnWritten(func(_ int, r *Rpc) { release(t.name, r) })
 		rp.end, rp.pxEnd = a, b
 		px.AddClient("bad", b)
+		ev := e.Log("peer.reattached", "bad", rp.gen, "")
+		histMu.Lock()
+		reattachDoneEv = ev
+		histMu.Unlock()
 		// the re-attached peer is healthy
 		end := a
 		gen := rp.gen
@@ -514,6 +520,10 @@ func execProxyRaw(e *Env, pp any) {
 					e.Note("fault.peer.noheader")
 				}
 				end := rp.end
+				st := e.Log("peer.send", name, i, "")
+				histMu.Lock()
+				sendStart[payload] = st
+				histMu.Unlock()
 				err := end.Write(rctx, r)
 				histMu.Lock()
 				se.sentEv = e.evN
@@ -613,6 +623,24 @@ func execProxyRaw(e *Env, pp any) {
 	}
 	for n := range recv {
 		sort.Slice(recv[n], func(i, j int) bool { return recv[n][i].ev < recv[n][j].ev })
+	}
+	// once AddClient(name, conn) has returned, conn is the peer of that name: an
+	// envelope whose sender began writing it after that point is never handed to
+	// the superseded connection
+	if reattachDoneEv != 0 && peers["bad"] != nil {
+		newest := peers["bad"].gen
+		for gen, gs := range recvGen["bad"] {
+			if gen >= newest {
+				continue
+			}
+			for _, g := range gs {
+				if st, ok := sendStart[string(g.rpc.GetBody().GetData())]; ok && st > reattachDoneEv {
+					e.Violate("C16", "delivered-to-superseded-connection", "proxy", "envelope %q, which its sender began to write (event %d) after AddClient(bad) had returned for the re-attached peer (event %d), was written to the old connection (generation %d of %d)", trunc(string(g.rpc.GetBody().GetData())), st, reattachDoneEv, gen, newest)
+					e.Violate("C17", "delivered-to-superseded-connection", "proxy", "envelope sent after the re-attach was written to the superseded connection (generation %d of %d)", gen, newest)
+					break
+				}
+			}
+		}
 	}
 	histMu.Lock()
 	sents := append([]*sentEnv(nil), sent...)
